@@ -63,6 +63,47 @@ static long long bruteMin(const std::vector<long long> &cap, const std::vector<l
   return best;
 }
 
+// reference for sizes beyond brute force: successive shortest paths with Bellman-Ford on the bipartite network
+// (an independent, deliberately plain implementation; costs are the problem's fixed-point costs, exact in 128 bits)
+static __int128 flowMin(const std::vector<long long> &cap, const std::vector<long long> &dem, const std::vector<std::vector<CostType>> &cost) {
+  int K = cap.size(), M = dem.size(), N = K + M + 2, S = K + M, T = K + M + 1;
+  struct E { int to; long long cap; __int128 cost; int rev; };
+  std::vector<std::vector<E>> g(N);
+  auto add = [&](int a, int b, long long c, __int128 w) {
+    g[a].push_back({b, c, w, (int)g[b].size()});
+    g[b].push_back({a, 0, -w, (int)g[a].size() - 1});
+  };
+  long long total = 0;
+  for (int j = 0; j < M; ++j) { add(S, j, dem[j], 0); total += dem[j]; }
+  for (int i = 0; i < K; ++i) add(M + i, T, cap[i], 0);
+  for (int j = 0; j < M; ++j)
+    for (int i = 0; i < K; ++i) add(j, M + i, (long long)4e18, (__int128)cost[i][j]);
+  __int128 res = 0;
+  long long sent = 0;
+  const __int128 INF = (__int128)1 << 120;
+  while (sent < total) {
+    std::vector<__int128> dist(N, INF);
+    std::vector<int> pv(N, -1), pe(N, -1);
+    dist[S] = 0;
+    for (int it = 0; it < N; ++it) {
+      bool ch = false;
+      for (int a = 0; a < N; ++a) {
+        if (dist[a] == INF) continue;
+        for (size_t e = 0; e < g[a].size(); ++e)
+          if (g[a][e].cap > 0 && dist[a] + g[a][e].cost < dist[g[a][e].to]) { dist[g[a][e].to] = dist[a] + g[a][e].cost; pv[g[a][e].to] = a; pe[g[a][e].to] = e; ch = true; }
+      }
+      if (!ch) break;
+    }
+    if (dist[T] == INF) return -1;
+    long long push = total - sent;
+    for (int x = T; x != S; x = pv[x]) push = std::min(push, g[pv[x]][pe[x]].cap);
+    for (int x = T; x != S; x = pv[x]) { g[pv[x]][pe[x]].cap -= push; g[x][g[pv[x]][pe[x]].rev].cap += push; }
+    res += dist[T] * push;
+    sent += push;
+  }
+  return res;
+}
+
 static vf::Verdicts eval(const Inst &in, vf::Ctx &ctx) {
   vf::Verdicts out;
   int K = in.cap.size(), M = in.dem.size();
@@ -127,7 +168,14 @@ static vf::Verdicts eval(const Inst &in, vf::Ctx &ctx) {
   for (int i = 0; i < K; ++i)
     if (used[i] > pb->capacity(i)) { fail("sink-over-capacity", "sink " + std::to_string(i)); return out; }
   long long opt;
-  if (in.kind == 5) opt = bruteMin(in.cap, in.dem, pb->costs()) * BIGQ;  // the optimum is linear in a common quantity factor
+  if (in.kind == 8) {
+    // larger problems: min-cost-flow reference; the plan's cost is re-summed in 128 bits
+    __int128 c128 = 0;
+    for (int i = 0; i < K; ++i) for (int j = 0; j < M; ++j) c128 += (__int128)al[i][j] * pb->costs()[i][j];
+    __int128 o128 = flowMin(pb->capacities(), in.dem, pb->costs());
+    if (c128 != o128) fail("plan-not-optimal", "larger problem " + std::to_string(K) + "x" + std::to_string(M) + ": cost differs from the min-cost-flow optimum by " + std::to_string((double)(c128 - o128)));
+    opt = cost;
+  } else if (in.kind == 5) opt = bruteMin(in.cap, in.dem, pb->costs()) * BIGQ;  // the optimum is linear in a common quantity factor
   else opt = bruteMin(pb->capacities(), in.dem, pb->costs());
   if (cost != opt) fail("plan-not-optimal", "cost " + std::to_string(cost) + " > optimum " + std::to_string(opt));
   if (isFloat) {
@@ -203,7 +251,7 @@ int main(int argc, char **argv) {
   c.rule =
       "all problems with 1..3 sinks, 1..3 sources (thorough: also 4x2, 2x4, 4x3 with costs {0,1,3}), demands 1..2, capacities 1..3, integer costs "
       "0..2 (one large-spread value in thorough), total demand <= total capacity; 3 sinks x 4 sources with binary costs, demands/capacities 1..3; 4x4 assignment problems with costs {0,1,2} (quick: last sink free);  the float constructor on the same costs scaled by {1, 0.37, 1e4} and, on the smallest shapes, by {1.5e38, 1e-4} (the top of the float range and small costs above the 1e-8 floor below which the solver treats costs as zero) (optimality also judged in the instance's own integer costs, independently of the solver's fixed-point conversion) "
-      "(sizes up to 3x2/2x3 in quick); over-full variants after increaseCapacity(); oracle = direct feasibility sums, brute-force minimum over all "
+      "(sizes up to 3x2/2x3 in quick); over-full variants after increaseCapacity(); larger problems (5..16 sinks x 8..33 sources, 4 cost patterns x 3 quantity patterns; and widely spread costs mix(i,j,a,b) mod 1001 (a fixed integer mixing function) for every (a,b) in a 40 x 40 grid on 5/12/16 sinks x 10/33/60/80 sources) against an independent min-cost-flow reference; oracle = direct feasibility sums, brute-force minimum over all "
       "integer allocations in the problem's own fixed-point costs, arg-max rule for toAssignment(); non-trivial = a capacity constraint is binding";
   c.bounds = th ? "<=4x3" : "<=3x3";
   c.enumerate = [=](const std::function<void(const Inst &)> &f) {
@@ -250,6 +298,55 @@ int main(int argc, char **argv) {
         while (in.cost.size() < 16) in.cost.push_back(0);
         f(in);
       }
+    }
+    // larger problems (kind 8; integer costs): 5..16 sinks x 8..33 sources, four cost patterns (distance-like, many ties, wide
+    // spread, near-constant), three quantity patterns (unit, mixed with slack, mixed exactly balanced); min-cost-flow reference
+    for (int K : {5, 9, 16})
+      for (int M : {8, 20, 33})
+        for (int cp = 0; cp < 4; ++cp)
+          for (int qp = 0; qp < 3; ++qp) {
+            Inst in;
+            in.kind = 8;
+            long long ds = 0;
+            for (int j = 0; j < M; ++j) { long long d = qp == 0 ? 1 : 1 + (j * 5) % 3; in.dem.push_back(d); ds += d; }
+            long long each = (ds + K - 1) / K;
+            long long cs = 0;
+            for (int i = 0; i < K; ++i) { long long c = qp == 1 ? each + 1 + i % 2 : each; in.cap.push_back(c); cs += c; }
+            if (qp == 2) { long long extra = cs - ds; for (int i = 0; i < K && extra > 0; ++i) { long long t = std::min(extra, in.cap[i] - 1); in.cap[i] -= t; extra -= t; } }
+            for (int i = 0; i < K; ++i)
+              for (int j = 0; j < M; ++j) {
+                int a = (j * K * 3) / M, c;
+                if (cp == 0) c = std::abs(3 * i - a) + (i + j) % 2;
+                else if (cp == 1) c = (i + j) % 3;
+                else if (cp == 2) c = ((i * 7 + j * 11) % 13) * ((i + j) % 4 == 0 ? 1000 : 1);
+                else c = 50 + (i * j) % 2;
+                in.cost.push_back(c);
+              }
+            f(in);
+          }
+    // widely spread costs on 5..16 sinks (shortest-path labels are revised several times there): cost(i,j) =
+    // mix(i, j, a, b) mod 1001 (a fixed integer mixing function) for every (a, b) in 1..40 x 1..40 (thorough: 1..64 x 1..64)
+    {
+      int G = th ? 64 : 40;
+      for (int K : {5, 12, 16})
+        for (int M : {10, 33, 60, 80})
+          for (int a = 1; a <= G; ++a)
+            for (int b = 1; b <= G; ++b) {
+              Inst in;
+              in.kind = 8;
+              long long ds = 0;
+              for (int j = 0; j < M; ++j) { long long d = 1 + (j * 5 + a) % 3; in.dem.push_back(d); ds += d; }
+              long long each = (ds + K - 1) / K;
+              for (int i = 0; i < K; ++i) in.cap.push_back(each + (i + b) % 2);
+              for (int i = 0; i < K; ++i)
+                for (int j = 0; j < M; ++j) {
+                  // integer mixing of (i, j, a, b): values spread over 0..1000 without linear structure
+                  uint32_t h = (uint32_t)(i * 73856093) ^ (uint32_t)(j * 19349663) ^ (uint32_t)(a * 83492791) ^ (uint32_t)(b * 2654435761u);
+                  h ^= h >> 15; h *= 2246822519u; h ^= h >> 13;
+                  in.cost.push_back((int)(h % 1001));
+                }
+              f(in);
+            }
     }
     if (th) {
       std::vector<int> wide = {0, 1, 3, 1000};
